@@ -16,8 +16,9 @@ def run(tier, seed, work, replay):
         guard_prefixes=["G_C11_", "G_C10_NoPanic"])
     res.cov["rule"] = ("every prefix length 0-32 x boundary peers (network, broadcast, one below, one above, middle, far) x "
                        "list shapes x IPv4 / IPv4-mapped / IPv6 / malformed peers x site (library predicate, checkAuth via "
-                       "/certgen, refresh endpoint, read-back), plus 10 structurally corrupted extensions signed by the "
-                       "trusted CA; TLC-enumerated, membership decided by the spec's prefix arithmetic on the logged integers")
+                       "/certgen, refresh endpoint, read-back, certificates minted by the issuing endpoint with separate target "
+                       "netblocks), plus 13 structurally corrupted extensions signed by the trusted CA (three of them a "
+                       "malformed entry followed by a well-formed block holding the peer); TLC-enumerated, membership decided by the spec's prefix arithmetic on the logged integers")
     res.cov["exhaustive"] = True
     res.cov["authenticated"] = sum(1 for e in evs if e["out"]["auth"])
     res.assumptions = ["addresses below 128.0.0.0 (TLC integers are 32 bit signed); prefix arithmetic does not depend on the top bit",
